@@ -37,6 +37,31 @@ theorem args_guard_body_never_runs (env : Env) (orc : Nat → Val → Raw) (horc
     · unfold runCall; simp [hinit, hkw]
     · rw [args_guard env orc horc f args kw body ctx hmode (by simpa using hinit) (by simpa using hkw) hc hbad]
 
+/-- **C03 (property setters).** `obj.x = v` reaches the setter positionally by Python's own protocol (the setter is exempt
+    from the keyword discipline, `should_have_kwargs = False`): a value that does not conform to the annotation of the
+    setter's parameter never reaches the body. -/
+theorem setter_value_guard (env : Env) (orc : Nat → Val → Raw) (horc : ∀ k v, orc k v ≠ .raisedTV) (f : Fn) (slf v : Val)
+    (body : BodyOut) (ctx : SoundCtx env f [slf, v] []) (hmode : f.mode = .pedantic)
+    (hshk : f.shouldHaveKwargs = false) (hself : f.firstIsSelf = true)
+    (p : Param) (hplain : f.plain = [p]) (hd : p.dflt = none) (a : Ann) (ha : p.ann = some a)
+    (hc : f.clazzFails [slf, v] = false) (hbad : conforms env a v = false) :
+    runCall env orc f [slf, v] [] body = ⟨.pedTypeCheck, false, [], []⟩ := by
+  have hp : p ∈ f.params := plain_sub f p (by simp [hplain])
+  have hne : checkArguments env orc f [slf, v] [] ≠ none := by
+    rw [checkArguments_eq]
+    intro h
+    rw [orElse_none] at h
+    have h1 := h.1
+    simp only [hplain, hself, ↓reduceIte, checkParams, ha, hd, hshk, lookup, cfg_fallback] at h1
+    simp only [List.getElem?_cons_succ, List.getElem?_cons_zero, Bool.false_eq_true, ↓reduceIte] at h1
+    rw [orElse_none] at h1
+    exact checkVal_bad ctx (ctx.anns p hp a ha) (ctx.args v (by simp)) hbad h1.1
+  have hca : checkArguments env orc f [slf, v] [] = some .pedTypeCheck := by
+    cases h : checkArguments env orc f [slf, v] [] with
+    | none => exact absurd h hne
+    | some c => rw [checkArguments_some_tc env orc horc f _ _ hc c h]
+  rw [runCall_pedantic env orc f [slf, v] [] body hmode (by simp) (by simp [hshk]), hca]
+
 /-- the value a parameter at position i receives is checked: special case "one bad keyword among conforming ones" -/
 theorem one_bad_keyword (env : Env) (orc : Nat → Val → Raw) (horc : ∀ k v, orc k v ≠ .raisedTV) (f : Fn) (args : List Val)
     (kw : List (NameId × Val)) (body : BodyOut) (ctx : SoundCtx env f args kw) (hmode : f.mode = .pedantic)
